@@ -265,6 +265,19 @@ func runCase(c Case) (string, string) {
 	r := region(s)
 	fr := exact.ToF(r, scale)
 	want := 0.0
+	// a multi-line string is simple only if its members do not meet each other
+	for a := 0; a < len(c.Lines); a++ {
+		for b := a + 1; b < len(c.Lines); b++ {
+			for i := 0; i+1 < len(c.Lines[a]); i++ {
+				for j := 0; j+1 < len(c.Lines[b]); j++ {
+					if exact.SegsMeet(c.Lines[a][i], c.Lines[a][i+1], c.Lines[b][j], c.Lines[b][j+1]) {
+						atomic.AddInt64(&nSkipped, 1)
+						return "", ""
+					}
+				}
+			}
+		}
+	}
 	for _, l := range c.Lines {
 		if !generalPosition(r, l) {
 			atomic.AddInt64(&nSkipped, 1)
